@@ -969,6 +969,29 @@ func (fv *FV) execInstr(fr *Frame, st *State, in ssa.Instruction) {
 		fr.regs[x] = Scalar{ref}
 	case *ssa.Send:
 		fv.chanSend(fr, st, x)
+	case *ssa.Select:
+		// select over receive cases only: any case may be the one taken (blocking: one of them is), the received values
+		// are unconstrained values of their types. Over-approximates every scheduling of the communication partners.
+		n := len(x.States)
+		idx := fv.fresh("selidx", IntSort)
+		lo := 0
+		if !x.Blocking {
+			lo = -1
+		}
+		st.assume(And(Ge(idx, IntLit(int64(lo))), Lt(idx, IntLit(int64(n)))))
+		tup := TupleV{Scalar{idx}, Scalar{fv.fresh("recvok", BoolSort)}}
+		for _, s := range x.States {
+			if s.Dir != types.RecvOnly {
+				fv.fail("select with a send case is outside the subset (%s)", fv.pos(x.Pos()))
+			}
+			ch := fv.val(fr, s.Chan)
+			_ = ch
+			et := s.Chan.Type().Underlying().(*types.Chan).Elem()
+			v := fv.freshValue("recv", et)
+			fv.assumeType(st, v, et)
+			tup = append(tup, v)
+		}
+		fr.regs[x] = tup
 	case *ssa.Go:
 		st.events = append(st.events, "go "+x.Call.String())
 	default:
